@@ -35,12 +35,15 @@ CLAIMED = {
     'C05': claim('Theorems (Properties/C05.v): every distillation partitions the alternatives into non-empty classes numbered consecutively from 1; links = index '
                  'comparison; not-worse => fully concordant; credibility in [0,1]; termination with explicit fuel bound for non-negative distillation functions '
                  '(negative_distillation_diverges shows why validation is needed). Model = set-level distillation on original indices. Tie: full response '
-                 'correspondence on electreIII requests + checker recomputing indices and links from the returned entries and the final parameters.',
+                 'correspondence on electreIII requests + checker recomputing indices and links from the returned entries and the final parameters; raw matrices through the exported '
+                 'RankAscending/RankDescending; the credibility matrix the code derives (evaluateCredibilityMatrix, exported by the overlay) entry by entry against the model; a search phase '
+                 'for differing indices whenever one of these correspondences breaks.',
                  'matrix bookkeeping of the Go code (Slice/Without) is covered by the correspondence only.',
                  'Coq proof of the distillation model + vm_compute correspondence on Go outputs', 'C05'),
     'C06': claim('Theorems (Properties/C06.v, exact rationals): outranking monotone for non-positive slope; covering => qualification order at every cut level => class order in both '
                  'distillations; identical rows => identical classes; credibility monotone for validated constant thresholds; electre_dominance: the model satisfies the '
-                 'dominance checker; weights scaling leaves credibility unchanged. Tie: dominance/equality checker on every pair of every real response; metamorphic '
+                 'dominance checker; weights scaling leaves credibility unchanged; listing order: the credibility matrix of a permuted listing is the renamed matrix, every distillation '
+                 'commutes with renaming and does not depend on how a set is listed, hence all indices and links (as sets) are unchanged (electre_evaluate_rename). Tie: dominance/equality checker on every pair of every real response; metamorphic '
                  'groups (listing order, k x 2^m) on the real code.',
                  'constant thresholds (the documented domain); a counterexample for slope < -1 thresholds is recorded in Proofs/ElectreOrderFacts.v.',
                  'Coq proof over Qc + vm_compute checker and metamorphic runs on Go outputs', 'C06'),
@@ -54,12 +57,13 @@ CLAIMED = {
                  'tied weights: only the order-free clauses (Go breaks ties with draws inside an unstable sort).',
                  'Coq proof of the elimination walk + vm_compute correspondence and checker on Go outputs', 'C12'),
     'C13': claim('Theorems (Properties/C13.v, any carrier with OrdLaws): satisfaction_passes_checker: accepted entries report and satisfy their level and fail every earlier one; '
-                 'leftovers report the index after the last level and the worst value of each range; order of acceptance. Tie: full correspondence + checker.',
+                 'leftovers report the index after the last level and the worst value of each range; satisfaction_order_passes: the ranking is the order of acceptance (level by level, '
+                 'search order within a level, then the rest in search order). Tie: full correspondence + checkers C13_ok and C13_order_ok on every real response, instances of 13-22 alternatives included.',
                  'levels enumerable within the fuel and every alternative holding every criterion value (both guaranteed by validation).',
                  'Coq proof of the acceptance walk + vm_compute correspondence and checker on Go outputs', 'C13'),
     'C14': claim('Theorems (Properties/C14.v, exact rationals): validation = documented ranges; four update rules; strict monotonicity; threshold formula; declared range first; '
                  'finiteness with explicit bounds; consecutive levels strictly monotone. Tie: the real level sources (as wired in main.go) called directly and compared level by level with the '
-                 'model, plus a series checker on the returned levels.',
+                 'model, plus a series checker on the returned levels; every series is generated twice from the same data (must be equal, data deep-compared before/after).',
                  'binary64 may differ from Q in the count where a decimal series crosses its bound by less than an ulp; the model on binary64 follows Go.',
                  'Coq proof over Qc + vm_compute correspondence of the level sources', 'C14'),
 }
@@ -69,8 +73,10 @@ CLAIMED.update({
     'C02': claim('Theorems (Properties/C02.v): order-independence of every pattern of map iteration the code uses (per-key assignment, per-key accumulation without associativity, '
                  'collect-then-sort, merge with collision check, Choquet ties) with the instances for the model (cumulated weights, averages, key normalisation, criteria ranking); '
                  'obligations against files regenerated from the source on every run: every `range` over a map is classified under one of these patterns, and nothing calls time.* '
-                 'or package-level math/rand. Tie: every request is sent to the real service again in the same process, after other requests and to fresh processes and must be '
-                 'answered byte-identically; full correspondence model/service.',
+                 'or package-level math/rand; decide_depends_on_seeds: two environments (random stream per seed, exp table) that agree on the seeds carried in the request give the same '
+                 'response, streams of other seeds are never consulted, no bias changes the method seed. Tie: every request is sent to the real service again in the same process, '
+                 'after other requests and to fresh processes and must be answered byte-identically; systematic histories (each request before and after every other of its pool, '
+                 'same-method parameter variants) against processes that served nothing else; full correspondence model/service.',
                  'partial for the runtime part: scheduler, clock and process state are checked by repetition and by the regenerated symbol scan, not proved.',
                  'Coq proof of map-order independence + regenerated inventory obligation + repetition across processes', 'C02'),
     'C07': claim('Theorems (Properties/C07.v): every bias maps coherent working data to coherent working data (every alternative has every current criterion, parameters cover them), lifted '
@@ -98,8 +104,9 @@ CLAIMED.update({
                  'Coq noninterference theorem + regenerated write-summary obligation + concurrent runs with race detector', 'C10'),
     'C15': claim('Theorems (Properties/C15.v, exact rationals): k = clamp(floor(n ratio)); omitted = first k of the ordering; all five orderings are permutations; weakest/strongest soundness w.r.t. '
                  'the listener\'s importance; strongest = rev weakest; first-pick interval of weakestByProbability decreasing in importance; omission_passes_checker. Tie: per-stage '
-                 'correspondence + checker on traced omissions, and the decision is compared with the decision for the request with the omitted criteria deleted.',
-                 'equivalence with the reduced request is checked on the code (exact equality), proved only as state restriction.',
+                 'correspondence + checker on traced omissions, and the decision is compared with the decision for the request with the omitted criteria deleted. '
+                 'omission_state_reduced_exact / omit_equals_reduced*: the state after omission IS the state prepared from the reduced request, so the decisions are equal (also with further biases).',
+                 'Choquet needs comma-free criterion ids (choquet_comma_refuted is the witness); OWA equal up to the order of the weight list; OWA / generated levels with FURTHER biases not claimed.',
                  'Coq proof over Qc + per-stage correspondence and reduced-request comparison', 'C15'),
     'C16': claim('Theorems (Properties/C16.v, exact rationals): v -> max + min - v for every known alternative on every selected criterion with the declared / currently observed range; frame; '
                  'range preserved; involution; reversal_passes_checker. Tie: per-stage correspondence + checker on traced reversals (all orderings, with and without declared ranges, '
@@ -114,7 +121,8 @@ CLAIMED.update({
                  'Coq proof over Qc + per-stage correspondence on traced Go runs', 'C19'),
     'C20': claim('Theorems (Properties/C20.v): decide is total (ranking with echoes, or rejection); one rejection lemma per documented constraint (31), incl. fired biases with bad '
                  'properties; termination of ELECTRE distillation under the validated domain is in C05. Tie: the unmodified service under a memory limit: valid stream, every documented '
-                 'constraint violated one at a time (must be 400 with error + echoed request, names listed), malformed / mistyped / extreme bodies, liveness after every request, 15 s deadline; '
+                 'constraint violated one at a time (must be 400 with error + echoed request, names listed), malformed / mistyped / extreme bodies, 16-40-alternative requests per method '
+                 'with every constraint violated and with rejections raised only while the method runs, liveness after every request, 15 s deadline; '
                  'accept/reject correspondence with the model.',
                  'partial: JSON binding, recover(), stack and memory limits are runtime behaviour exercised by the server runs, not modelled; resource exhaustion by sheer size is outside.',
                  'Coq rejection lemmas + fault/fuzz runs against the real HTTP service', 'C20'),
